@@ -133,6 +133,10 @@ func Run(cfg hx.Config) (*hx.Meta, error) {
 		hx.Shuffle(r, d2)
 		types = ga.Dedup(append(types, d2[:40]...))
 	}
+	// word-sized unsigned element types (uint, uintptr and named types over them): their pools hold values above
+	// math.MaxInt, which a sort through []int would put in front (seeded change C13-m11)
+	wordTypes := []*ga.Type{ga.B("uint"), ga.B("uintptr"), ga.Named(60, "NUint", 0, ga.B("uint")), ga.Named(61, "NUptr", 0, ga.B("uintptr"))}
+	types = ga.Dedup(append(wordTypes, types...))
 	types = ga.Dedup(append(methodTypes(cat), types...))
 	types = corpusFirst(cfg.Corpus, cat, r, types, meta)
 	for _, t := range types {
